@@ -82,7 +82,7 @@ add(Contract(P + 'filter_free_variables', 'fn', [('self', 'CSelf'), ('variables'
 add(Contract(P + 'compile_free_variable_declarations', 'fn', [('self', 'CSelf'), ('variables', 'SS')], ret='Code',
              ensures=['(= {result} (decls {variables}))']))
 add(Contract(P + 'nesting_depth', 'fn', [('self', 'CSelf'), ('code', 'Code')], ret='Int', ensures=['(= {result} (ndepth {code}))'],
-             notes='assumed here (recursive walk over the emitted code); its presence and shape are checked by the C11 size guards'))
+             loops={0: LoopSpec(['(= {depth} (ndk {code} {k}))'])}))
 
 _A = '(aliasnames {clause.hargs} (talen {clause.hargs}))'
 _HF = '(sdedupe (sminus (tavarsl {clause.hargs}) (seq.++ (bvtop {bvs0}) ' + _A + ')))'
@@ -96,6 +96,8 @@ add(Contract(P + 'compile_function_body', 'fn', [('self', 'CSelf'), ('clause', '
              # every further variable of the body (each once, before any loop); then the head unifications, left to right, around the body
              # ({body_code} is the local that holds the result of compile_body: its meaning is the body's, by compile_body's contract)
              ensures=['(= (semc {body_code}) (semb {clause.body}))',
+                      # an accepted clause nests at most 19 blocks (plus the function's own wrapper loop: 20, CPython's limit - A-CPY-LIMITS)
+                      '(< (ndepth (wrap {clause.hargs} 0 {body_code})) 20)',
                       '(= {result} (capp (capp (capp (aliases {clause.hargs} (talen {clause.hargs})) (decls ' + _HF + ')) (decls ' + _BF + '))'
                       ' (wrap {clause.hargs} 0 {body_code})))',
                       '(= {bvs} {bvs0})']))
